@@ -78,3 +78,60 @@ M("c05-benign-ne-demorgan", "C05", F, "  def __ne__(self, other):\n    return no
 M("c05-benign-mul-commuted", "C05", F, "      return ZFilter(self.numpoly * other.numpoly,\n                     self.denpoly * other.denpoly)", "      return ZFilter(other.numpoly * self.numpoly,\n                     other.denpoly * self.denpoly)", benign=True)
 M("c05-benign-add-order", "C05", F, "      return ZFilter(self.numpoly * other.denpoly.copy() +\n                     other.numpoly * self.denpoly.copy(),", "      return ZFilter(other.numpoly * self.denpoly.copy() +\n                     self.numpoly * other.denpoly.copy(),", benign=True)
 M("c05-benign-ne-not", "C05", F, "    return not (self == other)\n\n\nclass ZFilterMeta", "    return not self == other\n\n\nclass ZFilterMeta", benign=True)
+
+# ------------------------------------------------------------------ C04
+M("c04-den-one-sign", "C04", F, '        data_sum.append("-m{idx}".format(idx=delay))', '        data_sum.append("m{idx}".format(idx=delay))', "C04.equation")
+M("c04-num-minus-one-sign", "C04", F, '        data_sum.append("-d{idx}".format(idx=delay))', '        data_sum.append("d{idx}".format(idx=delay))', "C04.equation")
+M("c04-den-generic-sign", "C04", F, '"-{value} * m{idx}"', '"{value} * m{idx}"', "C04.equation")
+M("c04-num-generic-plus", "C04", F, '"{value} * d{idx}"', '"{value} + d{idx}"', "C04.equation")
+M("c04-den-stream-sign", "C04", F, '"-next(a{idx}) * m{idx}"', '"next(a{idx}) * m{idx}"', "C04.equation")
+M("c04-gain-minus-one", "C04", F, 'expr = "-({expr})".format(expr=expr)', 'expr = "({expr})".format(expr=expr)', "C04.equation")
+M("c04-gain-no-parens", "C04", F, '"({expr}) / ({gain})"', '"({expr}) / {gain}"', "C04.equation")
+M("c04-gain-multiplies", "C04", F, '"({expr}) / ({gain})"', '"({expr}) * ({gain})"', "C04.equation")
+M("c04-shift-ascending", "C04", F, "for idx in xrange(lm, 0, -1)]", "for idx in xrange(1, lm + 1)]", "C04.shift")
+M("c04-dshift-ascending", "C04", F, "for idx in xrange(lb - 1, 0, -1)]", "for idx in xrange(1, lb)]", "C04.shift")
+M("c04-shift-misses-last", "C04", F, "for idx in xrange(lm, 0, -1)]", "for idx in xrange(lm - 1, 0, -1)]", "C04.shift")
+M("c04-shift-from-same", "C04", F, '"    m{idx} = m{idxold}".format(idx=idx, idxold=idx - 1)', '"    m{idx} = m{idxold}".format(idx=idx, idxold=idx)', "C04.shift")
+M("c04-memory-reversed", "C04", F, '["m{} ,".format(el) for el in xrange(1, la)]', '["m{} ,".format(el) for el in xrange(la - 1, 0, -1)]', "C04.memory-order")
+M("c04-dinit-short", "C04", F, '["d{}".format(el) for el in xrange(1, lb)]', '["d{}".format(el) for el in xrange(1, lb - 1)]', "C04")
+M("c04-zero-filter-const", "C04", F, '"    yield {zero}".format(zero=zero)', '"    yield 0."', "C04.zero-filter")
+M("c04-guard-num-only", "C04", F, "    if any(key < 0 for key, value in it.chain(self.numpoly.terms(),\n                                              self.denpoly.terms())\n          ):", "    if any(key < 0 for key, value in self.numpoly.terms()):", "C04.causal-first")
+M("c04-guard-le", "C04", F, "    if any(key < 0 for key, value in it.chain(self.numpoly.terms(),", "    if any(key <= 0 for key, value in it.chain(self.numpoly.terms(),", "C04.causal-first")
+M("c04-takewhile-le", "C04", F, "lambda pair: pair[0] < lm", "lambda pair: pair[0] <= lm", "C04.memory")
+M("c04-callable-la", "C04", F, "memory = memory(lm)", "memory = memory(la)", "C04.memory")
+M("c04-lm-la", "C04", F, "lm = la - 1 # Memory size", "lm = la # Memory size", "C04")
+M("c04-nomem-la", "C04", F, "memory = [zero for unused in xrange(lm)]", "memory = [zero for unused in xrange(la)]", "C04.memory")
+M("c04-args-order", "C04", F, "arguments = [iter(seq), memory, zero]", "arguments = [iter(seq), zero, memory]", "C04.exec")
+M("c04-iterables-crossed", "C04", F, "arguments.extend(iter(self.numpoly[idx]) for idx in num_iterables)", "arguments.extend(iter(self.denpoly[idx]) for idx in num_iterables)", "C04.exec")
+M("c04-yield-after-shift", "C04", F, None, None, "C04.shift", edits=[('      gen_func += ["    yield m0"]\n', ''), ('                   for idx in xrange(lb - 1, 0, -1)]\n', '                   for idx in xrange(lb - 1, 0, -1)]\n      gen_func += ["    yield m0"]\n')])
+M("c04-la-numerator", "C04", F, "la, lb = len(self.denominator), len(self.numerator)", "la, lb = len(self.numerator), len(self.denominator)", "C04")
+# benign
+M("c04-benign-gain-reciprocal", "C04", F, '"({expr}) / ({gain})"', '"({expr}) * (1 / ({gain}))"', benign=True)
+M("c04-benign-commuted-term", "C04", F, '"{value} * d{idx}"', '"d{idx} * ({value})"', benign=True)
+M("c04-benign-den-commuted", "C04", F, '"-{value} * m{idx}"', '"-m{idx} * ({value})"', benign=True)
+M("c04-benign-nomem-mul", "C04", F, "memory = [zero for unused in xrange(lm)]", "memory = [zero] * lm", benign=True)
+
+# ------------------------------------------------------------------ C06
+M("c06-add-drop-copy", "C06", F, "other.numpoly * self.denpoly.copy(),", "other.numpoly * self.denpoly,", "R4.3")
+M("c06-add-copy-late", "C06", F, "      return ZFilter(self.numpoly * other.denpoly.copy() +\n                     other.numpoly * self.denpoly.copy(),\n                     self.denpoly * other.denpoly)", "      den = self.denpoly * other.denpoly\n      return ZFilter(self.numpoly * other.denpoly.copy() +\n                     other.numpoly * self.denpoly.copy(), den)", "R4.3")
+M("c06-pow-alias", "C06", P, "[self.copy() for unused in xrange(other - 1)]\n                                + [self])", "[self.copy()] * (other - 1) + [self])", "R4.4")
+M("c06-pow-no-copy", "C06", P, "[self.copy() for unused in xrange(other - 1)]", "[self for unused in xrange(other - 1)]", "R4.3")
+M("c06-mul-budget-swapped", "C06", P, "    thubbed_self = [(k, thub(v, len(other._data)))", "    thubbed_self = [(k, thub(v, len(self._data)))", "R4.1")
+M("c06-mul-budget-minus", "C06", P, "    thubbed_other = [(k, thub(v, len(self._data)))", "    thubbed_other = [(k, thub(v, len(self._data) - 1))", "R4.1")
+M("c06-truediv-budget", "C06", P, "    other = thub(other, len(self))", "    other = thub(other, 1)", "R4.1")
+M("c06-call-budget", "C06", P, "    value = thub(value, len(self))", "    value = thub(value, len(self) - 1)", "R4.1")
+M("c06-horner-extra-use", "C06", P, "      return result * value ** last_power", "      return result * value ** last_power + 0 * value", "R4.1")
+M("c06-next-twice", "C06", F, '"next(b{idx}) * d{idx}"', '"next(b{idx}) * d{idx} + 0 * next(b{idx})"', "C06.next-once")
+M("c06-kernel-unprotected", "C06", F, None, None, "E3", edits=[('        gen_func += ["    try:",\n                     "      m0 = {expr}".format(expr=expr),\n                     "    except StopIteration:",\n                     "      return"]', '        gen_func += ["    m0 = {expr}".format(expr=expr)]')])
+M("c06-iter-args-swapped", "C06", F, '      arg_names.extend("b{idx}".format(idx=idx) for idx in num_iterables)\n      arg_names.extend("a{idx}".format(idx=idx) for idx in den_iterables)', '      arg_names.extend("a{idx}".format(idx=idx) for idx in den_iterables)\n      arg_names.extend("b{idx}".format(idx=idx) for idx in num_iterables)', "C06.args")
+M("c06-den-stream-sign", "C06", F, '"-next(a{idx}) * m{idx}"', '"next(a{idx}) * m{idx}"', "C06.equation")
+M("c06-gain-no-copy", "C06", F, "      den *= inv_gain.copy()", "      den *= inv_gain", "C06.a0")
+M("c06-gain-not-inverted", "C06", F, "      inv_gain = 1 / den[0]", "      inv_gain = den[0]", "C06.a0")
+M("c06-gain-keeps-a0", "C06", F, "      den[0] = 0\n      den *= inv_gain.copy()\n      den[0] = 1", "      den *= inv_gain.copy()", "C06.a0")
+M("c06-gain-drops-zero", "C06", F, "      return ZFilter(self.numpoly * inv_gain, den)(seq, memory=memory,\n                                                   zero=zero)", "      return ZFilter(self.numpoly * inv_gain, den)(seq, memory=memory)", "C06.a0")
+M("c06-no-avoid-parallel", "C06", F, "@avoid_stream\nclass ParallelFilter(FilterList):", "class ParallelFilter(FilterList):", "C06.avoid")
+M("c06-polycopy-shares", "C06", P, "(k, v.copy() if isinstance(v, Stream) else v)", "(k, v)", "C06.copy")
+M("c06-stream-template-ignores", "C06", S, "  def __rbinary__(cls, op):\n    op_func = op.func\n    def dunder(self, other):\n      if isinstance(other, cls.__ignored_classes__):\n        return NotImplemented\n", "  def __rbinary__(cls, op):\n    op_func = op.func\n    def dunder(self, other):\n", "C06.avoid")
+# benign
+M("c06-benign-add-hoisted-copies", "C06", F, "      return ZFilter(self.numpoly * other.denpoly.copy() +\n                     other.numpoly * self.denpoly.copy(),\n                     self.denpoly * other.denpoly)", "      num = self.numpoly * other.denpoly.copy() + other.numpoly * self.denpoly.copy()\n      return ZFilter(num, self.denpoly * other.denpoly)", benign=True)
+M("c06-benign-mul-rename", "C06", P, "    for k1, v1 in thubbed_self:\n      for k2, v2 in thubbed_other:\n        if k1 + k2 in new_data:\n          new_data[k1 + k2] += v1 * v2\n        else:\n          new_data[k1 + k2] = v1 * v2", "    for ka, va in thubbed_self:\n      for kb, vb in thubbed_other:\n        if ka + kb in new_data:\n          new_data[ka + kb] += va * vb\n        else:\n          new_data[ka + kb] = va * vb", benign=True)
